@@ -2,8 +2,8 @@
   Rivia.Lemmas.MacrosCopy — `assert_vfs_copyfile!` against its specification (C20).
   Part 1: invariants of `_copy` (anything kept by `_add` and by storing file bytes is kept by `copy`);
           instance: no existing entry changes its kind.
-  Part 2: UTF-8 decoding is injective.
-  Part 3: the macro against `macroSpec`.
+  Part 2: the macro against `macroSpec` (it compares BYTES since the upstream repair of finding A6, so
+          no condition on the content of the source is left).
 -/
 import Rivia.Lemmas.MacrosAct
 
@@ -138,41 +138,7 @@ theorem step_copy_keepsKinds (env : Env) (s : State) (a b : Str) :
     KeepsKinds s (step env s (.copy a b)).2 :=
   (keepsKinds_copyInv s).step_copy env s a b (fun _ x hk => ⟨x, hk, rfl, rfl, rfl⟩)
 
-/-! ### UTF-8 decoding is injective -/
-
-theorem fromUTF8?_bytes {a : ByteArray} {s : String} (h : String.fromUTF8? a = some s) : s.toByteArray = a := by
-  unfold String.fromUTF8? at h
-  split at h
-  · simp only [Option.some.injEq] at h; rw [← h]; rfl
-  · cases h
-
-theorem decodeUtf8_inj {b1 b2 : Bytes} {x : Str} (h1 : decodeUtf8 b1 = some x) (h2 : decodeUtf8 b2 = some x) :
-    b1 = b2 := by
-  unfold decodeUtf8 at h1 h2
-  cases hs1 : String.fromUTF8? ⟨b1.toArray⟩ with
-  | none => rw [hs1] at h1; cases h1
-  | some s1 =>
-    cases hs2 : String.fromUTF8? ⟨b2.toArray⟩ with
-    | none => rw [hs2] at h2; cases h2
-    | some s2 =>
-      rw [hs1] at h1; rw [hs2] at h2
-      simp only [Option.map, Option.some.injEq] at h1 h2
-      have : s1 = s2 := String.toList_inj.mp (h1.trans h2.symm)
-      subst this
-      have e1 := fromUTF8?_bytes hs1
-      have e2 := fromUTF8?_bytes hs2
-      have : (⟨b1.toArray⟩ : ByteArray) = ⟨b2.toArray⟩ := e1.symm.trans e2
-      have h3 : b1.toArray = b2.toArray := by injection this
-      have := congrArg Array.toList h3
-      simpa using this
-
 /-! ### `copyfile` against `macroSpec` -/
-
-/-- the source, read after the copy, is valid UTF-8 (the macro compares `read_all` TEXTS) -/
-def srcTextOk (env : Env) (s' : State) (src : Str) : Bool :=
-  match nodeOf env s' src with
-  | some n => (decodeUtf8 n.data).isSome
-  | none => true
 
 theorem step_copy_unres_src {src dst : Str} (hk : keyOf env s src = none) :
     ∃ k, step env s (.copy src dst) = (.err k, s) := by
@@ -234,10 +200,9 @@ theorem copyfile_not_file {src dst : Str} {a b : FsPath} (hk1 : keyOf env s src 
         Bool.and_false]
 
 /-- **`assert_vfs_copyfile!` against its specification**, on the domain "the post-state is well
-    formed and the source reads back as valid UTF-8" -/
+    formed" (any content of the source: the macro compares bytes) -/
 theorem copyfile_agree {src dst : Str} (hst : StableArg env s src ∧ StableArg env s dst)
-    (hpost : StateOk (step env s (.copy src dst)).2)
-    (htxt : srcTextOk env (step env s (.copy src dst)).2 src = true) :
+    (hpost : StateOk (step env s (.copy src dst)).2) :
     ((runMacro env s (.copyfile src dst)).1 = .pass ↔ (macroSpec env s (.copyfile src dst)).1 = true) ∧
     ((runMacro env s (.copyfile src dst)).1 = .pass →
       (runMacro env s (.copyfile src dst)).2 = (macroSpec env s (.copyfile src dst)).2) := by
@@ -288,20 +253,13 @@ theorem copyfile_agree {src dst : Str} (hst : StableArg env s src ∧ StableArg 
           | none => rw [hbs] at hdata; exact absurd (hdata hreg) (by simp)
           | some bsrc =>
             have hkind : kindOf x' = Kind.file := (kind_file_flags hfl).2 hreg
-            have htsrc : textOf env s' src = decodeUtf8 bsrc := by
-              unfold textOf
-              rw [step_readAll_key hk1']
+            have htsrc : bytesOf env s' src = some bsrc := by
+              unfold bytesOf
+              rw [step_read_key hk1']
               simp only [hx', hxf, if_true, hbs]
-              cases decodeUtf8 bsrc <;> rfl
             have hpostspec : postSpec env s' (.copyfile src dst) = pHasBytes env s' dst bsrc := by
               simp only [postSpec, nodeOf_key hk1', hx', Option.map, absNode, hkind, decide_true,
                 Bool.true_and, hxl, hbs, Option.getD, Bool.false_eq_true, if_false]
-            have hsrcdec : ∃ x0, decodeUtf8 bsrc = some x0 := by
-              simp only [srcTextOk, nodeOf_key hk1', hx', Option.map, absNode, hxl, hbs, Option.getD,
-                Bool.false_eq_true, if_false] at htxt
-              cases hd : decodeUtf8 bsrc with
-              | none => rw [hd] at htxt; cases htxt
-              | some x0 => exact ⟨x0, rfl⟩
             rw [hpostspec, htsrc]
             simp only [pHasBytes, nodeOf_key hk2', eAt]
             -- the destination in the post-state
@@ -320,31 +278,29 @@ theorem copyfile_agree {src dst : Str} (hst : StableArg env s src ∧ StableArg 
                 cases hbd : alLookup b s'.files with
                 | none => rw [hbd] at hdatay; exact absurd (hdatay hregy) (by simp)
                 | some bdst =>
-                  have htdst : textOf env s' dst = decodeUtf8 bdst := by
-                    unfold textOf
-                    rw [step_readAll_key hk2']
+                  have htdst : bytesOf env s' dst = some bdst := by
+                    unfold bytesOf
+                    rw [step_read_key hk2']
                     simp only [hy, hyf, if_true, hbd]
-                    cases decodeUtf8 bdst <;> rfl
                   rw [htdst]
                   simp only [Option.map, absNode, hkindy, decide_true, Bool.true_and, hyl, hbd,
                     Option.getD, Bool.false_eq_true, if_false, hregy]
                   constructor
                   · rintro ⟨hok, ⟨x0, h1, h2⟩, _⟩
-                    simp [hok, decodeUtf8_inj h2 h1]
+                    cases h1; cases h2
+                    simp [hok]
                   · intro h
                     simp only [Bool.and_eq_true, decide_eq_true_eq] at h
                     obtain ⟨hok, heq⟩ := h
-                    obtain ⟨x0, hx0⟩ := hsrcdec
-                    exact ⟨hok, ⟨x0, hx0, by rw [heq]; exact hx0⟩, by simp [hyf]⟩
+                    exact ⟨hok, ⟨bsrc, rfl, by rw [heq]⟩, by simp [hyf]⟩
 
 
 /-! ### all acting macros -/
 
 /-- the side conditions on the specified post-state: well-formedness where `is_file` has to be read off
-    the reference view, and for `copyfile` a source that reads back as valid UTF-8 -/
+    the reference view (`mkfile`, `write_all`, `copyfile`) -/
 def ActOk (env : Env) (s : State) : MacroCall → Prop
-  | .copyfile a b => StateOk (macroSpec env s (.copyfile a b)).2 ∧
-      srcTextOk env (macroSpec env s (.copyfile a b)).2 a = true
+  | .copyfile a b => StateOk (macroSpec env s (.copyfile a b)).2
   | m => PostOk env s m
 
 instance (env : Env) (s : State) (m : MacroCall) : Decidable (ActOk env s m) := by
@@ -360,9 +316,9 @@ theorem acting_all (m : MacroCall) (hm : isChecking m = false) (hok : StateOk s)
     ((runMacro env s m).1 = .pass → (runMacro env s m).2 = (macroSpec env s m).2) := by
   cases m
   case copyfile a b =>
-    obtain ⟨h1, h2⟩ := hact
-    rw [macroSpec_copyfile_state] at h1 h2
-    exact copyfile_agree hst h1 h2
+    have h1 : StateOk (macroSpec env s (.copyfile a b)).2 := hact
+    rw [macroSpec_copyfile_state] at h1
+    exact copyfile_agree hst h1
   all_goals first
     | (simp only [isChecking, Bool.true_eq_false] at hm; done)
     | exact acting_agree _ rfl hok hst hact
